@@ -96,6 +96,9 @@ func TestPropRequests(t *testing.T) {
 		if msg != "" {
 			t.Fatalf("%s\ncase: %s", msg, c)
 		}
+		if len(r.NoReplyPubs) > 0 {
+			t.Fatalf("a message without reply subject made the service publish %q\ncase: %s", r.NoReplyPubs, c)
+		}
 		// per-request: predicted meta, pre-responses, unmarshalable -> internalError
 		for i, ob := range r.Obs {
 			m, u := checkReq(&c, &c.Reqs[i], ob)
